@@ -20,6 +20,23 @@ def script(sc):
     for ci in range(rng.choice([1, 2, 3])):
         for _ in range(rng.randrange(1, 6)):
             sc.do_edit()
+        if rng.random() < 0.3 and len(sc.files) > 1:
+            # a stash round trip with other agent work pending in between (read-only commands such as `stash list` / `stash show`
+            # run at that point in the read-only variant)
+            fa, fb = rng.sample(sc.files, 2)
+            sc.do_edit(author=rng.choice(sc.sessions), f=fa, kinds=["ins"])
+            sc.g("stash", "push", "-q")
+            if sc.w.ogit("stash", "list").strip():
+                sc.do_edit(author=rng.choice(sc.sessions), f=fb, kinds=["ins"])
+                if "readonly" in sc.variant:
+                    sc.readonly_cmds()
+                    for c in (["stash", "list"], ["stash", "show"]):
+                        sc.w.git(*c, tick=False)
+                        sc.stats["readonly_cmds"] += 1
+                sc.g("stash", "pop", "-q")
+                if sc.unmerged():
+                    sc.resolve_conflicts(how="both"); sc.g("reset", "-q"); sc.g("stash", "drop", "-q")
+                sc.ops.append("stash:roundtrip")
         kind = rng.choice(["all", "all", "files", "hunks"])
         if kind == "files":
             sc.op_partial_commit()
